@@ -169,6 +169,10 @@ def L(id_, file, func, keyword, nth, name, count=None):
 
 # group name -> list of rules.  A property's obligations name the groups their TU depends on.
 RULES = {
+ 'lfht_resize': [
+  L('init_table_loop', 'src/rculfhash.c', 'init_table', 'for', 1, 'init_table', count=1),
+  L('fini_table_loop', 'src/rculfhash.c', 'fini_table', 'for', 1, 'fini_table', count=1),
+ ],
  'defer': [
   # CBMC compares `p == (void *)(~(1 << 0))` in 32 bits; same value under GCC with the widening made explicit
   {'id': 'dq_fct_mark_width', 'file': 'src/urcu-defer-impl.h', 'kind': 'regex',
